@@ -8,6 +8,42 @@ import warnings
 import numpy as np
 
 
+def own_objects(gc):
+    """Other code in the process defines ITS OWN ellipsoid / projection / transformation / uncertainty objects from the very
+    numbers of the shipped ones (in several numeric forms) and then adjusts their fields.  A constructor always builds a new
+    object; the catalogue and the defaults of the API are unaffected."""
+    import copy
+    from decimal import Decimal
+
+    def edit(o):
+        for k, v in list(vars(o).items()):
+            if isinstance(v, (int, float)) and not isinstance(v, bool):
+                setattr(o, k, v * 1.01 + 0.003)
+    for nm in ('grs80', 'wgs84', 'ans', 'intl24'):
+        c = getattr(gc, nm)
+        for a, i in ((c.semimaj, c.inversef), (float(c.semimaj), float(c.inversef)), (int(c.semimaj), Decimal(repr(float(c.inversef)))),
+                     (np.float64(c.semimaj), np.float64(c.inversef)), (str(float(c.semimaj)), str(float(c.inversef)))):
+            try:
+                edit(gc.Ellipsoid(a, i))
+            except Exception:
+                pass
+        edit(copy.copy(c))
+    for nm in ('utm', 'isg'):
+        c = getattr(gc, nm)
+        edit(gc.Projection(c.falseeast, c.falsenorth, c.cmscale, c.zonewidth, c.initialcm))
+        edit(gc.Projection(float(c.falseeast), float(c.falsenorth), float(c.cmscale), float(c.zonewidth), float(c.initialcm)))
+    for nm in ('gda94_to_gda2020', 'itrf2014_to_gda2020', 'atrf2014_to_gda2020', 'itrf2008_to_gda94'):
+        t = getattr(gc, nm, None)
+        if t is None:
+            continue
+        edit(gc.Transformation(t.from_datum, t.to_datum, t.ref_epoch, t.tx, t.ty, t.tz, t.sc, t.rx, t.ry, t.rz,
+                               t.d_tx, t.d_ty, t.d_tz, t.d_sc, t.d_rx, t.d_ry, t.d_rz, tf_sd=t.tf_sd))
+        if isinstance(t.tf_sd, gc.TransformationSD):
+            sd = t.tf_sd
+            edit(gc.TransformationSD(sd.sd_tx, sd.sd_ty, sd.sd_tz, sd.sd_sc, sd.sd_rx, sd.sd_ry, sd.sd_rz, sd.sd_d_tx, sd.sd_d_ty,
+                                     sd.sd_d_tz, sd.sd_d_sc, sd.sd_d_rx, sd.sd_d_ry, sd.sd_d_rz))
+
+
 def run_all():
     import geodepy.constants as gc
     import geodepy.convert as cv
@@ -66,6 +102,7 @@ def run_all():
         lambda: cv.geo2grid(-1, -2), lambda: cv.geo2grid(-2, -1),
         lambda: cv.llh2xyz(-1, -2, -1), lambda: cv.xyz2llh(-1, -2, 6.4e6),
     ]
+    calls.append(lambda: own_objects(gc))
     with warnings.catch_warnings():
         warnings.simplefilter('ignore')
         with np.errstate(all='ignore'):
